@@ -311,3 +311,47 @@ pub mod gn {
         }
     }
 }
+
+/// A second generic contract: its parameter `P` occurs in the query messages ONLY as the response type
+/// given through `resp=P` (the handler's own return type is an alias hiding it), `Q` only in a query
+/// ARGUMENT next to a concrete `resp=`.  `QueryMsg` must be generic over exactly <Q, P>... in
+/// declaration order of the contract's parameters: <P, Q>.
+pub mod gs {
+    use super::{Digit, Num};
+    use core::marker::PhantomData;
+    use sylvia::ctx::{InstantiateCtx, QueryCtx};
+    use sylvia::cw_std::{Response, StdError, StdResult};
+
+    pub type Loaded<T> = Result<T, StdError>;
+
+    pub struct Gs<P, Q> {
+        _p: PhantomData<(P, Q)>,
+    }
+
+    #[sylvia::contract]
+    impl<P, Q> Gs<P, Q>
+    where
+        P: Num + Default,
+        Q: Num,
+    {
+        pub const fn new() -> Self {
+            Self { _p: PhantomData }
+        }
+
+        #[sv::msg(instantiate)]
+        pub fn instantiate(&self, _ctx: InstantiateCtx) -> StdResult<Response> {
+            Ok(Response::new())
+        }
+
+        #[sv::msg(query, resp=P)]
+        pub fn value(&self, _ctx: QueryCtx) -> Loaded<P> {
+            Ok(P::default())
+        }
+
+        #[sv::msg(query, resp=Digit)]
+        pub fn other(&self, _ctx: QueryCtx, q: Q) -> Loaded<Digit> {
+            let _ = q;
+            Ok(Digit { v: 0 })
+        }
+    }
+}
